@@ -95,6 +95,7 @@ EditCalls ==
   \cup {[C("SetType") EXCEPT !.v = v, !.name = "DOUBLE"] : v \in EV}
   \cup {[C("SetDim") EXCEPT !.v = v, !.i = 0, !.j = 7] : v \in EV}
   \cup {[C("SetShape") EXCEPT !.v = v, !.vs = <<5>>] : v \in EV}
+  \cup {[C("SetDenot") EXCEPT !.v = v, !.i = -1, !.name = "DATA_BATCH"] : v \in EV}
   \cup {[C("MetaPut") EXCEPT !.v = v, !.name = "k2"] : v \in EV}
   \cup {[C("ValMetaPut") EXCEPT !.v = v, !.name = "k2"] : v \in EV}
   \cup {[C("SetConst") EXCEPT !.v = v, !.flag = f] : v \in EV, f \in BOOLEAN}
